@@ -36,6 +36,7 @@ type CaseC17 struct {
 	Reapply    bool                   `json:"reapply_opts,omitempty"` // every option setter is called (with the value in force) right before the goroutines start: whatever the library derives from the options is derived concurrently
 	Alias      *AliasSpec             `json:"alias,omitempty"`        // one container object gets a second parent in the shared Map
 	DeepChain  int                    `json:"deep_chain,omitempty"`   // the shared Map is a chain of this many nested single-entry maps (built in the check, not stored)
+	OptBits    uint32                 `json:"opt_bits,omitempty"`     // package options set ONCE, before anything runs (see applyUnrelatedOptions): escaping, cast, prefixes ... - "options left alone" does not mean "options at their defaults"
 }
 
 func init() { register("C17", checkC17) }
@@ -129,6 +130,7 @@ func genC17(t *rapid.T) CaseC17 {
 	c.Yield = rapid.IntRange(1, 4).Draw(t, "yield")
 	c.SeqViaJSON = rapid.Bool().Draw(t, "seqviajson")
 	c.Reapply = rapid.Bool().Draw(t, "reapply")
+	c.OptBits = genUnrelated(t) &^ (1 << 15) // not the skip-every-tag function: nothing would be left to work on
 	c.NaNList = c.Value != nil && rapid.IntRange(0, 7).Draw(t, "nanlist") == 3
 	if c.Value != nil && rapid.IntRange(0, 4).Draw(t, "alias") == 0 {
 		c.Alias = &AliasSpec{Src: rapid.IntRange(0, 30).Draw(t, "asrc"), Dst: rapid.IntRange(0, 30).Draw(t, "adst"), Key: rapid.SampledFrom(shapeKeys).Draw(t, "akey")}
@@ -333,6 +335,9 @@ func checkC17(c CaseC17, info *Info) *Failure {
 		return nil
 	}
 	defer resetOptions()
+	applyUnrelatedOptions(c.OptBits)
+	info.ClassIf(c.OptBits != 0, "non-default package options set once up front")
+	info.ClassIf(c.OptBits&(1<<5|1<<6) != 0, "escaping of XML special characters switched on up front")
 	doc := []byte(c.Doc.String())
 	var shared mxj.Map
 	if c.DeepChain > 0 {
@@ -451,7 +456,11 @@ func checkC17(c CaseC17, info *Info) *Failure {
 	}
 	if c.Reapply {
 		// the options are not changed while the goroutines run - they were (re)set, sequentially, just before
-		defaultOpts().apply()
+		if c.OptBits == 0 {
+			defaultOpts().apply()
+		} else {
+			applyUnrelatedOptions(c.OptBits)
+		}
 		info.Class("option setters called right before the goroutines start")
 	}
 	close(start)
